@@ -193,7 +193,7 @@ func c04Run(c *vfCtx, cs c04Case) {
 			want = "updated"
 		}
 		if !opaque {
-			want, _, _ = m.call(e.Test, cl, e.New)
+			want, _, _ = m.call(e.Test, cl, vfFormat(cl))
 		}
 		c.outcome("update-run:" + got)
 		if got != want {
